@@ -111,7 +111,11 @@ func pipeConsts(args []string) error {
 	fs := flag.NewFlagSet("pipe-consts", flag.ExitOnError)
 	out := fs.String("out", "-", "output file")
 	prop := fs.String("property", "C05", "property id")
+	procs := fs.Int("procs", 0, "measure under this GOMAXPROCS (0: leave it)")
 	fs.Parse(args)
+	if *procs > 0 {
+		runtime.GOMAXPROCS(*procs)
+	}
 	c := liveConsts()
 	b, _ := json.Marshal(c)
 	rep := run.NewReport()
@@ -190,8 +194,9 @@ func gpipe(args []string) error {
 	picksFile := fs.String("picks", "", "file with one P/C pick string per line (TLC-simulated behaviours)")
 	randomRuns := fs.Int("random", 20, "random-schedule runs")
 	prop := fs.String("property", "C07", "property id")
+	procs := fs.Int("procs", 4, "GOMAXPROCS of the run (the schedules are forced by gates, not by the scheduler)")
 	fs.Parse(args)
-	runtime.GOMAXPROCS(4)
+	runtime.GOMAXPROCS(*procs)
 	rep := run.NewReport()
 	rng := rand.New(rand.NewSource(*seed))
 	consts := liveConsts()
